@@ -18,8 +18,8 @@ EXPLANATION = ('Decides for all inputs that the SRT constructors are translation
                'and that decomposition reads translation/scale/angle from the documented entries.  The round trip identity is not decided (numeric).')
 LEVEL_NOTE = 'Decides the composition clause and the structural part of decomposition. Trusted: rustc MIR, intrinsic table, rules/spec.py.'
 
-CONFIGS_QUICK = ['sse2', 'scalar']
-CONFIGS_THOROUGH = ['sse2', 'scalar', 'coresimd', 'neon', 'wasm32']
+CONFIGS_QUICK = ['sse2', 'sse2-fma', 'sse41', 'scalar', 'coresimd', 'neon', 'wasm32']
+CONFIGS_THOROUGH = ['sse2', 'sse2-fma', 'sse41', 'scalar', 'coresimd', 'neon', 'wasm32']
 CTORS3 = {'from_scale_rotation_translation', 'from_rotation_translation', 'from_mat3_translation', 'from_scale', 'from_translation', 'from_quat', 'from_mat3'}
 CTORS2 = {'from_scale_angle_translation', 'from_scale_angle', 'from_angle_translation', 'from_mat2_translation', 'from_scale', 'from_translation', 'from_mat2'}
 TYPES3 = {'Mat4', 'DMat4', 'Affine3A', 'DAffine3'}
